@@ -12,7 +12,7 @@ THEOREMS = ["C16_bits_roundtrip_str", "C16_bits_roundtrip_int", "C16_dna_roundtr
             "C16_dna_foreign"]
 CONE = ["Proofs/ConvertProofs.v", "Proofs/BignumProofs.v", "Convert.v", "Bignum.v", "Spec.v", "Py.v"]
 MODEL_FUNCTIONS = ["bit_to_number", "number_to_bit", "dna_to_number", "number_to_dna"]
-RULE = ("bit arrays of length 0..4096 (quick ..600) and DNA strings of length 0..2048 (quick ..300) from shaped families "
+RULE = ("every list a conversion returns is overwritten in place and the call repeated with equal arguments (the caller owns the result); bit arrays of length 0..4096 (quick ..600) and DNA strings of length 0..2048 (quick ..300) from shaped families "
         "(empty, all-zero / all-A, leading zeros, powers of two, random), each pushed through both code paths "
         "(is_string True / False) and back at the original width; numbers at and just below the capacity of the width; "
         "too-wide numbers and foreign characters as an agreement-only stream.  non-trivial = length >= 2 and not "
@@ -92,6 +92,15 @@ def payloads(rng, tier):
         yield "foreign", {"dna": s[:i] + rng.choice(["N", "a", "c", "g", "t", "U", "-", "x", "é", "Ω"]) + s[i:]}
 
 
+def twice(f, *a, **k):
+    """the caller owns what a conversion returned: overwrite a returned list in place, then ask again with equal arguments"""
+    r = f(*a, **k)
+    if isinstance(r, list):
+        r[:] = [7] * (len(r) + 1)
+        return f(*a, **k)
+    return r
+
+
 def build(stream, p):
     if stream == "bits":
         bits = p["bits"]
@@ -101,7 +110,7 @@ def build(stream, p):
             arg = bits if len(bits) % 3 == 0 else np.array(bits, dtype=[int, np.int64, np.uint8, np.int8][len(bits) % 4])
             ds = dsw.bit_to_number(arg, is_string=True)
             di = dsw.bit_to_number(arg, is_string=False)
-            return ds, di, dsw.number_to_bit(ds, len(bits)), dsw.number_to_bit(di, len(bits))
+            return ds, di, twice(dsw.number_to_bit, ds, len(bits)), twice(dsw.number_to_bit, di, len(bits))
         call = None
         calls = [enc_call(5, bits), enc_call(6, bits)]
 
@@ -144,7 +153,7 @@ def build(stream, p):
     if stream in ("render_bits", "toowide_bits"):
         as_str = (n % 2 == 0)
         call = enc_call(7, digits(str(n)), L) if as_str else enc_call(8, n, L)
-        impl = lambda: guard(lambda: dsw.number_to_bit(str(n) if as_str else n, L), lambda r: [[int(x) for x in r]])
+        impl = lambda: guard(lambda: twice(dsw.number_to_bit, str(n) if as_str else n, L), lambda r: [[int(x) for x in r]])
 
         def oracle(ans, raw):
             if stream != "render_bits":
